@@ -21,6 +21,6 @@ def cfg : TopSearch.Merge.Cfg :=
 def attemptWiring : List Nat := [0, 1, 2, 3, 4, 5, 6]
 /-- record positions passed as (coords.position, e_ts, min_plus, e_plus, min_minus, e_minus) -/
 def serialWiring : List Nat := [0, 1, 2, 3, 4, 5]
-def parallelWiring : List Nat := [0, 1, 4, 5, 2, 3]
+def parallelWiring : List Nat := [0, 1, 2, 3, 4, 5]
 def reconvergeWiring : List Nat := [0, 1, 2, 3, 4, 5]
 end TopSearch.Gen.Similarity
